@@ -119,6 +119,8 @@ class Sched:
         ct = self.cur()
         if ct is None:
             return                      # not a controlled thread: primitives act immediately
+        if self.aborting:
+            raise SchedAbort()          # unwinding (e.g. a close() in a finally block) must not park again
         ct.pending = op
         self.wake.release()
         ct.sem.acquire()
@@ -273,6 +275,12 @@ class CQueue:
     def get(self, block=True, timeout=None):
         s = _CURRENT
         if s and s.cur() is not None:
+            ct = s.cur()
+            ct.nget = getattr(ct, 'nget', 0) + 1
+            inj = getattr(s, 'inject', None)
+            if inj and inj.get('thread') == ct.label and inj.get('op') == 'get' and inj.get('k') == ct.nget:
+                # the operator's Ctrl-C delivered while this thread waits in Queue.get() for the k-th time
+                raise KeyboardInterrupt('operator interrupt (injected by the harness)')
             s.yield_op(Op('Queue.get', self, enabled=lambda: len(self._q) > 0))
             item = self._q.popleft()
             s.log('get', self.label, item)
